@@ -31,13 +31,20 @@ def table():
             if ty not in wrappers: continue
             fns = {}
             for m in re.finditer(r'pub fn (\w+)\s*\(\s*&(mut )?self\s*(?:,\s*([^)]*))?\)\s*(?:->\s*([^{]+?))?\s*\{', body):
-                fns[m.group(1)] = {'mut': bool(m.group(2)), 'args': (m.group(3) or '').strip().rstrip(','), 'ret': (m.group(4) or '').strip()}
+                # the function's own body (brace matching), to tell clearing setters (they call remove) from flag writers
+                depth = 0; j = m.end() - 1; fb = ''
+                for k2 in range(j, len(body)):
+                    if body[k2] == '{': depth += 1
+                    elif body[k2] == '}':
+                        depth -= 1
+                        if depth == 0: fb = body[j:k2 + 1]; break
+                fns[m.group(1)] = {'mut': bool(m.group(2)), 'args': (m.group(3) or '').strip().rstrip(','), 'ret': (m.group(4) or '').strip(), 'removes': '.remove(' in fb}
             for name, f in fns.items():
                 if not name.startswith('set_') or not f['mut']: continue
                 base = name[4:]
                 g = fns.get(base)
                 args = [a.split(':', 1)[1].strip() for a in split_args(f['args'])]
-                out.append({'crate': crate, 'module': module, 'type': ty, 'setter': name, 'args': args, 'getter': base if g else None, 'ret': g['ret'] if g else None})
+                out.append({'crate': crate, 'module': module, 'type': ty, 'setter': name, 'args': args, 'getter': base if g else None, 'ret': g['ret'] if g else None, 'removes': f['removes']})
             for name, f in fns.items():
                 if f['mut'] or name.startswith('set_') or f['args']: continue
                 if ('set_' + name) in fns: continue
